@@ -257,6 +257,7 @@ def hookOp (op : String) (n x : Nat) (rest : List Nat) : Option String :=
   | "shr1", [] =>
     let r := shr1WithCarry a
     both s!"{limbsHex r.1} {choiceTok r.2}" s!"{natToHex (x / 2)} {x % 2}"
+  | "ushr1", [] => both (limbsHex (ushr1 a)) (natToHex (x / 2))
   | "bshl_limb", [s] =>
     let r := shlLimb a s
     both s!"{limbsHexLen r.1} {natToHex r.2}" s!"{bhex n ((x * 2 ^ s) % m)} {natToHex ((x * 2 ^ s) / m)}"
